@@ -163,6 +163,7 @@ int main(int argc, char** argv) {
   an<ConfigItem> alias_cpp;
   bool use_api = false;
   bool have_alias = false;
+  int n_new = 0;
   auto cfg = [&]() -> Config* { return use_api ? reinterpret_cast<Config*>(ac.ptr) : cpp.get(); };
   std::string line;
   while (std::getline(in, line)) {
@@ -170,6 +171,7 @@ int main(int argc, char** argv) {
     std::vector<std::string> p = split(line, ' ');
     std::string res = "bad-op";
     if (p.size() == 2 && p[0] == "new" && (p[1] == "cpp" || p[1] == "api")) {
+      ++n_new;
       use_api = p[1] == "api";
       cpp.reset(new Config);
       if (ac.ptr) api->config_close(&ac);
@@ -306,6 +308,16 @@ int main(int argc, char** argv) {
       std::string o;
       dump(fresh.GetItem(""), &o);
       res = std::string("rt save=") + (s ? "1" : "0") + " load=" + (l ? "1" : "0") + " tree=" + (l ? o : "-");
+    } else if (p.size() == 1 && p[0] == "frt") {
+      // round trip through a FILE: SaveToFile to the file this config was saved to before (one file per `new`), then
+      // LoadFromFile into a fresh config; the current config stays as it is
+      std::string f = std::string(argv[2]) + ".cfg" + std::to_string(n_new) + ".yaml";
+      bool s = cfg()->SaveToFile(rime::path(f));
+      Config fresh;
+      bool l = fresh.LoadFromFile(rime::path(f));
+      std::string o;
+      dump(fresh.GetItem(""), &o);
+      res = std::string("frt save=") + (s ? "1" : "0") + " load=" + (l ? "1" : "0") + " tree=" + (l ? o : "-");
     } else if (p.size() == 2 && p[0] == "alias" && hexok(p[1])) {
       std::string path = unhex(p[1]);
       if (use_api) {
